@@ -184,13 +184,24 @@ func engineRapidp(rep *Report) {
 			anyMsgs = append(anyMsgs, s.Zero)
 		}
 	}
+	var boxZero proto.Message
+	if b := glue.Lookup("vf.wkt.Box"); b != nil {
+		boxZero = b.Zero
+	}
 	for ti, s := range subs {
 		tn := string(s.FullName)
 		rep.Types = append(rep.Types, tn)
 		d := s.Zero.ProtoReflect().Descriptor()
 		recursive := reachesCycle(d)
-		for oi := 0; oi < 16; oi++ {
+		for oi := 0; oi < 17; oi++ {
 			o := rpOpts{noEmpty: oi&1 != 0, noNil: oi&2 != 0, mapper: oi&4 != 0, anys: oi&8 != 0}
+			selfAny := oi == 16 // the only payload type offered recurses through an Any itself, with DisallowNilMessages
+			if selfAny {
+				o = rpOpts{noNil: true, anys: true}
+				if boxZero == nil || len(acceptedInterfaces(d)) > 0 || !reachesAny(d) {
+					continue
+				}
+			}
 			if est := expectedInstances(d, o.noNil, o.noEmpty); est > 20000 {
 				// the generator expands recursive types down to its depth limit of 10; for types whose
 				// recursion branches (lists/maps of the type itself, or DisallowNilMessages) one draw is
@@ -201,7 +212,10 @@ func engineRapidp(rep *Report) {
 			}
 			gopts := rapidproto.GeneratorOptions{NoEmptyLists: o.noEmpty, DisallowNilMessages: o.noNil, Resolver: protoregistry.GlobalTypes}
 			urls := map[string]bool{}
-			if o.anys {
+			if selfAny {
+				gopts = gopts.WithAnyTypes(boxZero)
+				urls["/vf.wkt.Box"] = true
+			} else if o.anys {
 				gopts = gopts.WithAnyTypes(anyMsgs...)
 				for _, u := range gopts.AnyTypeURLs {
 					urls[u] = true
@@ -211,7 +225,7 @@ func engineRapidp(rep *Report) {
 					gopts = gopts.WithInterfaceHint(iface, anyMsgs[0])
 				}
 			}
-			if *flagTier != "thorough" && int(hash64([]byte(tn))%16+uint64(oi))%16 >= 6 && oi != 0 {
+			if *flagTier != "thorough" && int(hash64([]byte(tn))%16+uint64(oi))%16 >= 6 && oi != 0 && !selfAny {
 				continue // quick tier: 6-7 of the 16 option combinations per type (which ones depends on the type)
 			}
 			if o.mapper {
@@ -416,4 +430,36 @@ func expectedInstances(d MD, noNil, noEmpty bool) float64 {
 		return total
 	}
 	return e(d, 0)
+}
+
+// reachesAny reports whether a google.protobuf.Any field is reachable from d.
+func reachesAny(d MD) bool {
+	seen := map[protoreflect.FullName]bool{}
+	var visit func(m MD) bool
+	visit = func(m MD) bool {
+		if m.FullName() == "google.protobuf.Any" {
+			return true
+		}
+		if seen[m.FullName()] {
+			return false
+		}
+		seen[m.FullName()] = true
+		fs := m.Fields()
+		for i := 0; i < fs.Len(); i++ {
+			fd := fs.Get(i)
+			var t MD
+			if fd.IsMap() {
+				if fd.MapValue().Kind() == protoreflect.MessageKind {
+					t = fd.MapValue().Message()
+				}
+			} else if fd.Kind() == protoreflect.MessageKind {
+				t = fd.Message()
+			}
+			if t != nil && visit(t) {
+				return true
+			}
+		}
+		return false
+	}
+	return visit(d)
 }
